@@ -13,13 +13,13 @@ for f in sorted(glob.glob(os.path.join(here, "seeded", "*", "meta.json"))):
             caught_by += ["%s: %s" % (k, v.split(":")[0].replace("[violation] ", "")) for v in r["violations"][:2]]
     demo = "clean rc=%s, patched rc=%s" % (m.get("demo_clean_rc"), m.get("demo_patched_rc"))
     rows.append("| %s | %s | %s | %s | %s | %s |" % (m["name"], m["property"], (m.get("needs") or "")[:260].replace("|", "/").replace("\n", " "),
-                                                demo, m.get("repo_tests", "n/a"), (("**caught** — " + "; ".join(caught_by)) if m.get("caught") else ("**MISSED**" if "caught" in m else m.get("error", "?"))) + ((" — NOTE: " + notes[m["name"]]["note"]) if m["name"] in notes else "")))
+                                                demo, m.get("repo_tests", "n/a"), (("**caught** — " + "; ".join(caught_by)) if m.get("caught") else (("**not a violation of the property (quiet, as it should be)**" if notes.get(m["name"], {}).get("class") == "out-of-scope" else "**MISSED**") if "caught" in m else m.get("error", "?"))) + ((" — NOTE: " + notes[m["name"]]["note"]) if m["name"] in notes else "")))
 with open(os.path.join(here, "seeded", "SUMMARY.md"), "w") as f:
     f.write("# Independently seeded changes and which check catches them\n\n"
             "| name | property | what it needs to manifest (author's notes, truncated) | demonstration | repository tests with the patch | our check |\n|---|---|---|---|---|---|\n")
     f.write("\n".join(rows) + "\n")
 
-def rnd(n): return 4 if "-r4" in n else 3 if "-r3" in n else (2 if "-r2" in n else 1)
+def rnd(n): return 5 if "-r5" in n else 4 if "-r4" in n else 3 if "-r3" in n else (2 if "-r2" in n else 1)
 stats = {}
 for f in sorted(glob.glob(os.path.join(here, "seeded", "*", "meta.json"))):
     m = json.load(open(f)); n = m["name"]
@@ -34,6 +34,7 @@ with open(os.path.join(here, "seeded", "SUMMARY.md"), "a") as f:
             "under a single-call property, or a front-end covered by another property's check) but by another registered check, unchanged; "
             "`other-check-after-strengthening` = by another check after a rule was added; `anticipated` = the author's description showed a "
             "generator gap and the check was widened BEFORE the first measurement (so these say nothing about unassisted detection); "
-            "`missed-then-strengthened` = measured miss (quick and scaled thorough quiet), check extended, then caught.\n")
+            "`missed-then-strengthened` = measured miss (quick and scaled thorough quiet), check extended, then caught; `out-of-scope` = the change "
+            "does not violate the property as stated (judged here, with the reason in the note): the checks are quiet and stay so.\n")
 print("%d seeded changes, %d caught" % (len(rows), sum("**caught**" in r for r in rows)))
 print({r: {k: len(v) for k, v in s.items()} for r, s in stats.items()})
